@@ -384,19 +384,11 @@ func dumpSweep(w *World, target string, dc *Deployed) map[string]string {
 		call("totalSupply()", "totalSupply")
 		call("symbol()", "symbol")
 		call("decimals()", "decimals")
-		for _, kv := range kvs {
-			var acc []byte
-			switch {
-			case len(kv.K) == 20:
-				acc = kv.K
-			case len(kv.K) == 21 && kv.K[0] == 'a':
-				acc = kv.K[1:]
-			default:
-				continue
-			}
+		for a, rec := range RawBalanceAccounts(kvs) {
+			acc := []byte(a)
 			call(fmt.Sprintf("balanceOf(%x)", acc), "balanceOf", acc)
 			// lock metadata is not in the API but decides future refunds
-			out[fmt.Sprintf("account-record(%x)", acc)] = fmt.Sprintf("%x", kv.V)
+			out[fmt.Sprintf("account-record(%x)", acc)] = fmt.Sprintf("%x", rec.Value)
 		}
 	case "container":
 		lst := call("list()", "list", []byte{})
